@@ -140,6 +140,15 @@ func init() {
 					l = strings.ReplaceAll(l, "\n", "")
 				}
 				var rs []string
+				if i%40 == 7 {
+					// wildcard-TLD values against hosts that are public suffixes themselves, one label, or shorter than the
+					// value: every computed slice bound must be in range
+					nm, host := wildcardInSuffix(g)
+					l = Pick(g, []string{"||x.org^$domain=" + nm + ".*", "*$domain=~" + nm + ".*", "/ad$denyallow=" + nm + ".*,domain=x.org", nm + ".*##.banner", "~" + nm + ".*##.b", "||x.org^$domain=" + nm + ".*|y.org"})
+					for _, hst := range []string{host, strings.TrimPrefix(host, nm+"."), nm, "x." + host} {
+						rs = append(rs, Req{Kind: "url", URL: "http://" + Pick(g, []string{"x.org", hst}) + "/ad", Source: "http://" + hst + "/", Type: 4}.Encode(), Req{Kind: "host", Hostname: hst}.Encode())
+					}
+				}
 				for j := 0; j < 2; j++ {
 					rs = append(rs, coupledReq(g, l).Encode())
 				}
